@@ -43,6 +43,7 @@ type Ctx struct {
 	Budget   int
 	Parallel bool // racesim: release waves, no logging, no synchronisation in callbacks
 	NoSched  bool // Yield is a no-op (plain run outside a bubble)
+	ErrShape int  // shape of the injected errors in this run (0 .. ErrShapes-1)
 
 	// Fault plan: keys "kind:subj#n" (n-th occurrence, 0-based) or "kind:subj#*" (always).
 	Armed map[string]bool
@@ -75,6 +76,35 @@ func NewCtx(ch *Chooser) *Ctx {
 
 // ErrInjected is the error returned by an armed fault site.
 var ErrInjected = errors.New("verif: injected fault")
+
+// Injected errors come in several legal shapes (a failure is a non-nil error, whatever its
+// dynamic type looks like); the shape is fixed per run (Ctx.ErrShape).
+type causerErr struct{ msg string }
+
+func (e *causerErr) Error() string { return e.msg }
+
+// Cause makes the error a github.com/pkg/errors "causer" without an underlying cause.
+func (e *causerErr) Cause() error { return nil }
+
+type unwrapNilErr struct{ msg string }
+
+func (e unwrapNilErr) Error() string { return e.msg }
+func (e unwrapNilErr) Unwrap() error { return nil }
+
+// ErrShapes is the number of shapes.
+const ErrShapes = 4
+
+func (c *Ctx) injected() error {
+	switch c.ErrShape {
+	case 1:
+		return &causerErr{"verif: injected fault (causer without cause)"}
+	case 2:
+		return unwrapNilErr{"verif: injected fault (wrapper without wrapped error)"}
+	case 3:
+		return fmt.Errorf("verif: injected fault (wrapped): %w", ErrInjected)
+	}
+	return ErrInjected
+}
 
 // ErrBudget is the panic value that aborts a run whose event log exceeded its budget.
 var ErrBudget = errors.New("verif: event budget of the run exceeded (non-termination)")
@@ -125,7 +155,7 @@ func (c *Ctx) Callback(kind, subj string, obj any) error {
 	if c.Parallel {
 		// immutable lookups only
 		if c.Armed[kind+":"+subj+"#*"] {
-			return ErrInjected
+			return c.injected()
 		}
 		return nil
 	}
@@ -149,7 +179,7 @@ func (c *Ctx) Callback(kind, subj string, obj any) error {
 		hook(kind, subj, obj)
 	}
 	if armed {
-		return ErrInjected
+		return c.injected()
 	}
 	return nil
 }
